@@ -406,7 +406,7 @@ Definition analyze_go (ev : N) (caller_eff callee_eff callee_nat : traitdef) : l
 
 Lemma analyze_eq ev ce cle cn cln :
   analyze ev ce cle cn cln =
-  if Nat.ltb 64 (length (td_methods cn)) then APanic else analyze_go ev ce cle cln (td_methods cn) [].
+  analyze_go ev ce cle cln (td_methods cn) [].
 Proof. reflexivity. Qed.
 
 Definition index_go (name : bytes) : list method -> N -> option (N * method) :=
@@ -457,7 +457,6 @@ Theorem analyze_missing_method : forall ev ce cle cn cln ms cm,
   find_method (cm_name cm) (td_methods cln) = None.
 Proof.
   intros ev ce cle cn cln ms cm Hrun Hin. rewrite analyze_eq in Hrun.
-  destruct (Nat.ltb 64 (length (td_methods cn))); [discriminate Hrun|].
   apply (analyze_go_inv ev ce cle cln
            (fun c => cm_callee c = None -> find_method (cm_name c) (td_methods cln) = None))
     with (ms := td_methods cn) (acc := []) (res := ms); try assumption.
